@@ -162,6 +162,12 @@ fn write_reply(s: &mut TcpStream, r: &Reply, port: u16) {
     if r.fault == "location" || matches!(r.status, 301 | 302 | 303 | 307 | 308) {
         head.extend_from_slice(format!("Location: http://127.0.0.1:{}/redirected\r\n", port).as_bytes());
     }
+    // headers that say nothing (named by the driver, see proto::extra_noise_headers), on every other reply
+    if (r.body.len() + r.status as usize) % 2 == 0 {
+        for (n, v) in extra_noise_headers() {
+            head.extend_from_slice(format!("{}: {}\r\n", n, v).as_bytes());
+        }
+    }
     let truncated = r.fault == "truncated";
     match r.framing.as_str() {
         "chunked" => {
